@@ -19,6 +19,7 @@ SQLAlchemy treats as precedence 5) are well bracketed in every parent context.
 namespace SaVerif.Props.C07
 open SaVerif.Expr SaVerif.Pratt SaVerif.Expr.Gen
 
+
 /-! ## §1 three-valued IN -/
 
 theorem or3_comm (a b : TV) : or3 a b = or3 b a := by
@@ -162,6 +163,9 @@ example : evalIn (.int 3) [.int 2, .int 1] = some false := by decide
 example : evalNotIn (.int 3) [.int 2, .null] = none := by decide
 
 /-! ## §2 the emitted tokens evaluate to three-valued IN -/
+
+section Sem
+variable [Abs]
 
 def litVal : Lit → Val
   | .int i => .int i
@@ -334,6 +338,8 @@ theorem grouping_independent_of_list (a : Option Op) (x : SaExpr) (vs ws : List 
     wouldGroup a (inExpr x vs ty) = wouldGroup a (inExpr x ws ty) ∧
     wouldGroup a (notInExpr x vs ty) = wouldGroup a (notInExpr x ws ty) := by
   constructor <;> rfl
+
+end Sem
 
 /-! ## §3 the empty-set forms in context -/
 
